@@ -6,6 +6,7 @@ mod fam_feat;
 mod fam_geom;
 mod fam_nms;
 mod fam_store;
+mod fam_trk;
 mod fam_vote;
 mod sched;
 mod wire;
@@ -18,6 +19,7 @@ pub struct Ctx {
     // per-case mutable state lives here (stores, trackers, ...)
     pub constr: similari::trackers::spatio_temporal_constraints::SpatioTemporalConstraints,
     pub store: fam_store::StoreCtx,
+    pub trk: fam_trk::TrkCtx,
 }
 
 fn exec(ctx: &mut Ctx, line: &str) -> String {
@@ -35,6 +37,7 @@ fn exec(ctx: &mut Ctx, line: &str) -> String {
         "box" => fam_geom::exec_box(ctx, &mut t),
         "track" => fam_store::exec_track(ctx, &mut t),
         "store" => fam_store::exec_store(ctx, &mut t),
+        "trk" => fam_trk::exec(ctx, &mut t),
         "geom" => fam_geom::exec_geom(ctx, &mut t),
         _ => format!("UNKNOWN-FAMILY {fam}"),
     }
